@@ -955,7 +955,8 @@ def binary(conf_mat):
     if H > 0 and H < 1 and F > 0 and F < 1:
         LOR = math.log(theta)
 
-    MCC = (TP*TN-FP*FN)/math.sqrt((TP+FP)*(TP+FN)*(TN+FP)*(TN+FN))
+    MCC = (float(TP)*TN-float(FP)*FN)
+    MCC /= math.sqrt(float(TP+FP)*(TP+FN)*(TN+FP)*(TN+FN))
 
     EDS = np.nan
     if TP > 0:
